@@ -3,6 +3,12 @@
   re-exported in the Properties files.
 -/
 import Sipsp.Proofs.NumRun
+import Sipsp.Proofs.Schedule
+import Sipsp.Proofs.SigCompose
+import Sipsp.Driver.Exec
+import Sipsp.Proofs.ContactsL2
+import Sipsp.Proofs.HeadersL2
+import Sipsp.Proofs.FLine
 
 namespace Sipsp
 
@@ -311,5 +317,1232 @@ theorem afb_clen_more_inv (b s : Buf) (o : Nat) (st : PUIntBody) (hfit : b.size 
   case ok => split at hr <;> cases hr
   case moreBytes => cases hr; exact afb_uint_more_inv b s o st hfit ho h hp
   all_goals cases hr
+
+/-- exits of the CSeq loop -/
+def AfbCsNT (b : Buf) (n : Nat) (e : Err) (s : PCSeqBody) : Prop :=
+  (e = .ok → NumDone b s.cseq s.cseqNo) ∧ (e = .moreBytes → n ≤ b.size ∧ CsNum b n s ∧ s.state ≠ .fin)
+
+theorem afb_AfbCsNT_err {b : Buf} {n : Nat} {e : Err} {s : PCSeqBody} (h1 : e ≠ .ok) (h2 : e ≠ .moreBytes) :
+    AfbCsNT b n e s := ⟨fun h => absurd h h1, fun h => absurd h h2⟩
+
+theorem afb_csFinish_ne_more (st : PCSeqBody) (b : Buf) (n crl : Nat) : (csFinish st b n crl).2.1 ≠ .moreBytes := by
+  unfold csFinish
+  simp only
+  split
+  · simp
+  · split <;> simp
+
+theorem afb_csStep_num (b : Buf) (i : Nat) (c : UInt8) (st : PCSeqBody) (hfit : b.size ≤ 65535) (hb : b[i]? = some c)
+    (hi : i ≤ b.size) (h : CsNum b i st) (hnf : st.state ≠ .fin) :
+    StepAll2 (fun n s => n ≤ b.size ∧ CsNum b n s ∧ s.state ≠ .fin) (AfbCsNT b) (csStep b i c st) := by
+  have hlt := get?_lt hb
+  have key : ∀ s1 : PCSeqBody, s1.state ≠ .foundDigit → s1.state ≠ .fin → CsNum b i s1 →
+      StepAll2 (fun n s => n ≤ b.size ∧ CsNum b n s ∧ s.state ≠ .fin) (AfbCsNT b) (lwsStd b i s1 (csEOH b) id) := by
+    intro s1 hnd hnn h1
+    have hany : ∀ n, CsNum b n s1 := fun n => ⟨(fun hh => absurd hh hnd), h1.done⟩
+    refine lwsStd_all2 b i s1 (csEOH b) id _ _ hi (fun n _ a2 => ⟨a2, hany n, hnn⟩)
+      (fun n _ _ => afb_AfbCsNT_err (by decide) (by decide))
+      (fun n _ a2 => ⟨(fun hh => by cases hh), fun _ => ⟨a2, hany n, hnn⟩⟩) (fun n crl _ _ _ => ?_)
+    unfold csEOH
+    cases hst : s1.state <;> simp only
+    case fend =>
+      exact ⟨fun _ => csFinish_num b s1 n crl (h1.done ⟨by rw [hst]; decide, by rw [hst]; decide⟩),
+        fun hh => absurd hh (afb_csFinish_ne_more _ _ _ _)⟩
+    case foundMethod =>
+      exact ⟨fun _ => csFinish_num b (csSetMethod s1 i) n crl (h1.done ⟨by rw [hst]; decide, by rw [hst]; decide⟩),
+        fun hh => absurd hh (afb_csFinish_ne_more _ _ _ _)⟩
+    all_goals exact afb_AfbCsNT_err (by decide) (by decide)
+  have hkeep : ∀ x : PCSeqBody, x.cseq = st.cseq → x.cseqNo = st.cseqNo → x.state ≠ .init → x.state ≠ .foundDigit →
+      (st.state ≠ .init ∧ st.state ≠ .foundDigit) → ∀ n, CsNum b n x := by
+    intro x e1 e2 e3 e4 hs n
+    exact ⟨fun hh => absurd hh e4, fun _ => by rw [e1, e2]; exact h.done hs⟩
+  unfold csStep
+  by_cases hl : isLWSch c = true
+  · simp only [hl, ↓reduceIte]
+    cases hst : st.state <;> simp only
+    case foundDigit =>
+      obtain ⟨h1, h2, h3⟩ := h.found hst
+      refine key _ (fun hh => by cases hh) (fun hh => by cases hh) ⟨(fun hh => by cases hh), fun _ => ?_⟩
+      show NumDone b (PField.set st.soffs i) st.cseqNo
+      exact ⟨st.soffs, i, pfield_set_eq _ _ (by omega) (by omega), h1, hi, h2, h3⟩
+    case foundMethod =>
+      exact key { csSetMethod st i with state := .fend } (fun hh => by cases hh) (fun hh => by cases hh)
+        (hkeep { csSetMethod st i with state := .fend } rfl rfl (fun hh => by cases hh) (fun hh => by cases hh)
+          ⟨by rw [hst]; decide, by rw [hst]; decide⟩ i)
+    case fin => exact absurd hst hnf
+    all_goals exact key st (by rw [hst]; decide) (by rw [hst]; decide) h
+  · simp only [hl, Bool.false_eq_true, ↓reduceIte]
+    by_cases hd : isDigit c = true
+    · simp only [hd, ↓reduceIte]
+      cases hst : st.state <;> simp only
+      case init =>
+        refine ⟨by omega, ⟨(fun _ => ⟨by show i < i + 1; omega, ?_, ?_⟩), (fun hh => absurd rfl hh.2)⟩, (fun hh => by cases hh)⟩
+        · show AllDigits (digitsOf b i (i + 1))
+          rw [digitsOf_snoc b i i c (Nat.le_refl _) hb, digitsOf_self]
+          intro x hx; simp at hx; subst hx; exact isDigit_B hd
+        · show c.toNat - 48 = decOf (digitsOf b i (i + 1))
+          rw [digitsOf_snoc b i i c (Nat.le_refl _) hb, digitsOf_self]
+          simp [decOf, decFrom, dval_def]
+      case foundDigit =>
+        obtain ⟨h1, h2, h3⟩ := h.found hst
+        split
+        · exact afb_AfbCsNT_err (by decide) (by decide)
+        · refine ⟨by omega, ⟨(fun _ => ⟨by show st.soffs < i + 1; omega, ?_, ?_⟩), (fun hh => absurd rfl hh.2)⟩, (fun hh => by cases hh)⟩
+          · show AllDigits (digitsOf b st.soffs (i + 1))
+            rw [digitsOf_snoc b st.soffs i c (by omega) hb]
+            intro x hx
+            rcases List.mem_append.mp hx with hx | hx
+            · exact h2 x hx
+            · simp at hx; subst hx; exact isDigit_B hd
+          · show st.cseqNo * 10 + (c.toNat - 48) = decOf (digitsOf b st.soffs (i + 1))
+            rw [digitsOf_snoc b st.soffs i c (by omega) hb, decOf, decFrom_snoc, ← decOf, ← h3, dval_def]
+      case endDigit =>
+        exact ⟨by omega, hkeep { st with state := .foundMethod, soffs := i } rfl rfl (fun hh => by cases hh)
+          (fun hh => by cases hh) ⟨by rw [hst]; decide, by rw [hst]; decide⟩ _, (fun hh => by cases hh)⟩
+      case foundMethod => exact ⟨by omega, ⟨(fun hh => by rw [hst] at hh; cases hh), h.done⟩, hnf⟩
+      case fend => exact afb_AfbCsNT_err (by decide) (by decide)
+      case fin => exact absurd hst hnf
+    · simp only [hd, Bool.false_eq_true, ↓reduceIte]
+      cases hst : st.state <;> simp only
+      case endDigit =>
+        exact ⟨by omega, hkeep { st with state := .foundMethod, soffs := i } rfl rfl (fun hh => by cases hh)
+          (fun hh => by cases hh) ⟨by rw [hst]; decide, by rw [hst]; decide⟩ _, (fun hh => by cases hh)⟩
+      case foundMethod => exact ⟨by omega, ⟨(fun hh => by rw [hst] at hh; cases hh), h.done⟩, hnf⟩
+      case fin => exact absurd hst hnf
+      all_goals exact afb_AfbCsNT_err (by decide) (by decide)
+
+/-- **ParseCSeqVal suspended**: after MoreBytes the returned object satisfies `CsNum` at the returned offset (on the
+    parsed buffer and on every extension), the offset lies inside the buffer and the object is not finished: the
+    hypotheses of `cseq_value_exact` for the resumed call. -/
+theorem afb_cseq_more_inv (b s : Buf) (o : Nat) (st : PCSeqBody) (hfit : b.size ≤ 65535) (ho : o ≤ b.size)
+    (h : CsNum b o st) {o' : Nat} {st' : PCSeqBody} (hr : parseCSeqVal b o st = (o', .moreBytes, st')) :
+    CsNum (b ++ s) o' st' ∧ o' ≤ b.size ∧ st'.state ≠ .fin := by
+  unfold parseCSeqVal at hr
+  split at hr
+  · cases hr
+  · rename_i hnf
+    have := runLoop_safe2 csMachine b (fun n s => n ≤ b.size ∧ CsNum b n s ∧ s.state ≠ .fin) (AfbCsNT b) cs_progress
+      (fun i c s hb hs => afb_csStep_num b i c s hfit hb hs.1 hs.2.1 hs.2.2)
+      (fun i s hs => ⟨(fun hh => by cases hh), fun _ => hs⟩) o st ⟨ho, h, hnf⟩
+    rw [hr] at this
+    obtain ⟨a1, a2, a3⟩ := this.2 rfl
+    exact ⟨afb_CsNum_app s a1 a2, a1, a3⟩
+
+/-! ### the converse: a digit string whose value exceeds 2^32-1 is REJECTED with the number-too-big verdict -/
+
+theorem afb_digitsOf_cons (b : Buf) (i e : Nat) (c : UInt8) (hb : b[i]? = some c) (hie : i < e) :
+    digitsOf b i e = c :: digitsOf b (i + 1) e := by
+  have hlt := get?_lt hb
+  have hc : b[i] = c := by
+    have := Array.getElem?_eq_getElem hlt
+    rw [this] at hb; exact Option.some.inj hb
+  unfold digitsOf
+  simp only [Array.toList_extract, List.extract_eq_take_drop]
+  rw [List.drop_eq_getElem_cons (by simpa using hlt)]
+  have : e - i = (e - (i + 1)) + 1 := by omega
+  rw [this, List.take_succ_cons]
+  simp [hc]
+
+theorem afb_decFrom_append (n : Nat) (l1 l2 : List UInt8) : decFrom n (l1 ++ l2) = decFrom (decFrom n l1) l2 := by
+  induction l1 generalizing n with
+  | nil => simp [decFrom_nil]
+  | cons x xs ih => simp only [List.cons_append, decFrom_cons]; exact ih _
+
+theorem afb_digitsOf_split (b : Buf) (x i e : Nat) (h1 : x ≤ i) (h2 : i ≤ e) :
+    digitsOf b x e = digitsOf b x i ++ digitsOf b i e := by
+  unfold digitsOf
+  rw [← Array.toList_append, Array.extract_append_extract, Nat.min_eq_left h1, Nat.max_eq_right h2]
+
+theorem afb_isDigit_of_B {c : UInt8} (h : IsDigitB c) : isDigit c = true := by
+  simp only [isDigit, Bool.and_eq_true, decide_eq_true_eq, UInt8.le_iff_toNat_le]
+  exact ⟨h.1, h.2⟩
+
+theorem afb_notLWS_of_B {c : UInt8} (h : IsDigitB c) : isLWSch c = false := by
+  have h1 := h.1; have h2 := h.2
+  simp only [isLWSch, Bool.or_eq_false_iff, beq_eq_false_iff_ne, ne_eq]
+  refine ⟨⟨⟨?_, ?_⟩, ?_⟩, ?_⟩ <;> (intro hh; rw [hh] at h1 h2; simp at h1 h2)
+
+/-- the digit case of the UInt loop body while in the number -/
+theorem afb_clStep_digit (b : Buf) (i : Nat) (c : UInt8) (st : PUIntBody) (hc : IsDigitB c) (hs : st.state = .found) :
+    clStep b i c st =
+      (if st.uiVal * 10 + dval c > 4294967295 then Step.done i Err.numTooBig st
+       else Step.cont (i + 1) { st with uiVal := st.uiVal * 10 + dval c }) := by
+  unfold clStep
+  rw [afb_notLWS_of_B hc, afb_isDigit_of_B hc, hs, dval_def]
+  simp only [Bool.false_eq_true, if_false, if_true]
+
+/-- the loop inside a number: if the digits up to `e` push the value above 2^32-1 the loop stops at one of them
+    with NumTooBig -/
+theorem afb_cl_run_big (b : Buf) (e : Nat) :
+    ∀ (k i : Nat) (st : PUIntBody), e - i = k → i ≤ e → e ≤ b.size → st.state = .found → st.uiVal ≤ 4294967295 →
+      AllDigits (digitsOf b i e) → decFrom st.uiVal (digitsOf b i e) > 4294967295 →
+      ∃ j st', i ≤ j ∧ j < e ∧ runLoop clMachine b i st = (j, .numTooBig, st') := by
+  intro k
+  induction k with
+  | zero =>
+    intro i st hk hie he hs hv hd hbig
+    have : i = e := by omega
+    subst this
+    rw [digitsOf_self, decFrom_nil] at hbig
+    omega
+  | succ k ih =>
+    intro i st hk hie he hs hv hd hbig
+    have hlt : i < b.size := by omega
+    have hb : b[i]? = some b[i] := Array.getElem?_eq_getElem hlt
+    rw [afb_digitsOf_cons b i e b[i] hb (by omega)] at hd hbig
+    have hc : IsDigitB b[i] := hd _ List.mem_cons_self
+    have hstep := afb_clStep_digit b i b[i] st hc hs
+    rw [decFrom_cons] at hbig
+    by_cases hov : st.uiVal * 10 + dval b[i] > 4294967295
+    · rw [if_pos hov] at hstep
+      exact ⟨i, st, Nat.le_refl _, by omega, runLoop_done clMachine hb hstep⟩
+    · rw [if_neg hov] at hstep
+      have hrun := runLoop_cont clMachine hb hstep
+      rw [if_pos (Nat.lt_succ_self i)] at hrun
+      obtain ⟨j, st', a1, a2, a3⟩ := ih (i + 1) { st with uiVal := st.uiVal * 10 + dval b[i] } (by omega) (by omega) he
+        hs (by show st.uiVal * 10 + dval b[i] ≤ 4294967295; omega)
+        (fun x hx => hd x (List.mem_cons_of_mem _ hx)) hbig
+      exact ⟨j, st', by omega, a2, by rw [hrun]; exact a3⟩
+
+/-- **ParseUIntVal resumed (or called) inside a number**: the object is in the middle of a digit string that began at
+    `st.soffs` (`ClNum`), the bytes `[i, e)` are further digits, and the value of the whole string `[st.soffs, e)`
+    exceeds 2^32-1: the call is rejected with NumTooBig at one of these digits, whatever follows. -/
+theorem afb_uint_big_resumed (b : Buf) (i e : Nat) (st : PUIntBody) (hs : st.state = .found) (h : ClNum b i st)
+    (hv : st.uiVal ≤ 4294967295) (hie : i ≤ e) (he : e ≤ b.size) (hd : AllDigits (digitsOf b i e))
+    (hbig : decOf (digitsOf b st.soffs e) > 4294967295) :
+    ∃ j st', i ≤ j ∧ j < e ∧ parseUIntVal b i st = (j, .numTooBig, st') := by
+  obtain ⟨h1, _, h3⟩ := h.found hs
+  unfold parseUIntVal
+  rw [if_neg (by rw [hs]; decide)]
+  refine afb_cl_run_big b e (e - i) i st rfl hie he hs hv hd ?_
+  rw [afb_digitsOf_split b st.soffs i e (by omega) hie, decOf, afb_decFrom_append, ← decOf, ← h3] at hbig
+  exact hbig
+
+/-- **ParseUIntVal on an object that has not met the number yet** (a new object), called at the first digit: the
+    bytes `[o, e)` are digits of value above 2^32-1 ⇒ NumTooBig at one of them, whatever follows. -/
+theorem afb_uint_big_rejected (b : Buf) (o e : Nat) (st : PUIntBody) (hs : st.state = .init) (hoe : o < e)
+    (he : e ≤ b.size) (hd : AllDigits (digitsOf b o e)) (hbig : decOf (digitsOf b o e) > 4294967295) :
+    ∃ j st', o < j ∧ j < e ∧ parseUIntVal b o st = (j, .numTooBig, st') := by
+  have hlt : o < b.size := by omega
+  have hb : b[o]? = some b[o] := Array.getElem?_eq_getElem hlt
+  rw [afb_digitsOf_cons b o e b[o] hb hoe] at hd hbig
+  have hc : IsDigitB b[o] := hd _ List.mem_cons_self
+  have hstep : clStep b o b[o] st = .cont (o + 1) { st with state := .found, soffs := o, uiVal := b[o].toNat - 48 } := by
+    unfold clStep
+    rw [afb_notLWS_of_B hc, afb_isDigit_of_B hc, hs]
+    simp only [Bool.false_eq_true, if_false, if_true]
+  have hrun := runLoop_cont clMachine hb hstep
+  rw [if_pos (Nat.lt_succ_self o)] at hrun
+  rw [decOf, decFrom_cons, dval_def] at hbig
+  have h9 := hc.2
+  obtain ⟨j, st', a1, a2, a3⟩ := afb_cl_run_big b e (e - (o + 1)) (o + 1)
+    { st with state := .found, soffs := o, uiVal := b[o].toNat - 48 } rfl (by omega) he rfl
+    (by show b[o].toNat - 48 ≤ 4294967295; omega) (fun x hx => hd x (List.mem_cons_of_mem _ hx))
+    (by simpa using hbig)
+  refine ⟨j, st', by omega, a2, ?_⟩
+  unfold parseUIntVal
+  rw [if_neg (by rw [hs]; decide), hrun]; exact a3
+
+/-! #### leading white space -/
+
+/-- every byte of `[o, i)` is a space or a tab -/
+def AfbWsRun (b : Buf) (o i : Nat) : Prop := ∀ k, o ≤ k → k < i → ∃ w, b[k]? = some w ∧ isWS w = true
+
+theorem afb_skipLWS_ws_run (b : Buf) (i : Nat) (c : UInt8) (hb : b[i]? = some c) (hws : isWS c = false)
+    (hcr : isCRLFch c = false) : ∀ (k o : Nat), i - o = k → o ≤ i → AfbWsRun b o i → skipLWS b o 0 = (i, 0, .ok) := by
+  intro k
+  induction k with
+  | zero =>
+    intro o hk hoi _
+    have : o = i := by omega
+    subst this
+    exact skipLWS_other hb hws hcr
+  | succ k ih =>
+    intro o hk hoi hrun
+    obtain ⟨w, hw, hww⟩ := hrun o (Nat.le_refl _) (by omega)
+    rw [skipLWS_ws hw hww]
+    exact ih (o + 1) (by omega) (by omega) (fun j h1 h2 => hrun j (by omega) h2)
+
+theorem afb_lwsStd_ws_run {σ : Type} (b : Buf) (o i : Nat) (c : UInt8) (st : σ)
+    (eoh : σ → Nat → Nat → Nat → Nat × Err × σ) (mb : σ → σ) (hb : b[i]? = some c) (hws : isWS c = false)
+    (hcr : isCRLFch c = false) (hoi : o ≤ i) (hrun : AfbWsRun b o i) : lwsStd b o st eoh mb = .cont i st := by
+  unfold lwsStd
+  rw [afb_skipLWS_ws_run b i c hb hws hcr (i - o) o rfl hoi hrun]
+
+theorem afb_isLWS_of_WS {w : UInt8} (h : isWS w = true) : isLWSch w = true := by
+  simp only [isWS, Bool.or_eq_true, beq_iff_eq] at h
+  simp only [isLWSch, Bool.or_eq_true, beq_iff_eq]
+  rcases h with h | h
+  · exact Or.inl (Or.inl (Or.inl h))
+  · exact Or.inl (Or.inl (Or.inr h))
+
+theorem afb_notWS_of_B {c : UInt8} (h : IsDigitB c) : isWS c = false ∧ isCRLFch c = false := by
+  have := afb_notLWS_of_B h
+  simp only [isLWSch, Bool.or_eq_false_iff] at this
+  simp only [isWS, isCRLFch, Bool.or_eq_false_iff]
+  exact ⟨⟨this.1.1.1, this.1.1.2⟩, ⟨this.1.2, this.2⟩⟩
+
+/-- **ParseUIntVal, new object, optional leading spaces / tabs, then a digit string of value above 2^32-1**: rejected
+    with NumTooBig at one of the digits, whatever follows them -/
+theorem afb_uint_big_rejected_ws (b : Buf) (o i e : Nat) (st : PUIntBody) (hs : st.state = .init) (hoi : o ≤ i)
+    (hws : AfbWsRun b o i) (hie : i < e) (he : e ≤ b.size) (hd : AllDigits (digitsOf b i e))
+    (hbig : decOf (digitsOf b i e) > 4294967295) :
+    ∃ j st', i < j ∧ j < e ∧ parseUIntVal b o st = (j, .numTooBig, st') := by
+  rcases Nat.eq_or_lt_of_le hoi with heq | hlt
+  · subst heq; exact afb_uint_big_rejected b o e st hs hie he hd hbig
+  · have hbi : b[i]? = some b[i] := Array.getElem?_eq_getElem (by omega)
+    have hci : IsDigitB b[i] := by
+      rw [afb_digitsOf_cons b i e b[i] hbi hie] at hd
+      exact hd _ List.mem_cons_self
+    obtain ⟨w, hw, hww⟩ := hws o (Nat.le_refl _) hlt
+    have hstep : clStep b o w st = .cont i st := by
+      unfold clStep
+      rw [afb_isLWS_of_WS hww, hs]
+      simp only [if_true]
+      exact afb_lwsStd_ws_run b o i b[i] st clEOH id hbi (afb_notWS_of_B hci).1 (afb_notWS_of_B hci).2 hoi hws
+    have hrun := runLoop_cont clMachine hw hstep
+    rw [if_pos hlt] at hrun
+    obtain ⟨j, st', a1, a2, a3⟩ := afb_uint_big_rejected b i e st hs hie he hd hbig
+    refine ⟨j, st', a1, a2, ?_⟩
+    unfold parseUIntVal at a3 ⊢
+    rw [if_neg (by rw [hs]; decide)] at a3 ⊢
+    rw [hrun]; exact a3
+
+/-- ParseCLenVal passes the verdict on -/
+theorem afb_clen_big_rejected_ws (b : Buf) (o i e : Nat) (st : PUIntBody) (hs : st.state = .init) (hoi : o ≤ i)
+    (hws : AfbWsRun b o i) (hie : i < e) (he : e ≤ b.size) (hd : AllDigits (digitsOf b i e))
+    (hbig : decOf (digitsOf b i e) > 4294967295) :
+    ∃ j st', i < j ∧ j < e ∧ parseCLenVal b o st = (j, .numTooBig, st') := by
+  obtain ⟨j, st', a1, a2, a3⟩ := afb_uint_big_rejected_ws b o i e st hs hoi hws hie he hd hbig
+  exact ⟨j, st', a1, a2, by unfold parseCLenVal; rw [a3]⟩
+
+/-! #### CSeq -/
+
+theorem afb_csStep_digit (b : Buf) (i : Nat) (c : UInt8) (st : PCSeqBody) (hc : IsDigitB c) (hs : st.state = .foundDigit) :
+    csStep b i c st =
+      (if st.cseqNo * 10 + dval c > 4294967295 then Step.done i Err.numTooBig st
+       else Step.cont (i + 1) { st with cseqNo := st.cseqNo * 10 + dval c }) := by
+  unfold csStep
+  rw [afb_notLWS_of_B hc, afb_isDigit_of_B hc, hs, dval_def]
+  simp only [Bool.false_eq_true, if_false, if_true]
+
+theorem afb_cs_run_big (b : Buf) (e : Nat) :
+    ∀ (k i : Nat) (st : PCSeqBody), e - i = k → i ≤ e → e ≤ b.size → st.state = .foundDigit → st.cseqNo ≤ 4294967295 →
+      AllDigits (digitsOf b i e) → decFrom st.cseqNo (digitsOf b i e) > 4294967295 →
+      ∃ j st', i ≤ j ∧ j < e ∧ runLoop csMachine b i st = (j, .numTooBig, st') := by
+  intro k
+  induction k with
+  | zero =>
+    intro i st hk hie he hs hv hd hbig
+    have : i = e := by omega
+    subst this
+    rw [digitsOf_self, decFrom_nil] at hbig
+    omega
+  | succ k ih =>
+    intro i st hk hie he hs hv hd hbig
+    have hlt : i < b.size := by omega
+    have hb : b[i]? = some b[i] := Array.getElem?_eq_getElem hlt
+    rw [afb_digitsOf_cons b i e b[i] hb (by omega)] at hd hbig
+    have hc : IsDigitB b[i] := hd _ List.mem_cons_self
+    have hstep := afb_csStep_digit b i b[i] st hc hs
+    rw [decFrom_cons] at hbig
+    by_cases hov : st.cseqNo * 10 + dval b[i] > 4294967295
+    · rw [if_pos hov] at hstep
+      exact ⟨i, st, Nat.le_refl _, by omega, runLoop_done csMachine hb hstep⟩
+    · rw [if_neg hov] at hstep
+      have hrun := runLoop_cont csMachine hb hstep
+      rw [if_pos (Nat.lt_succ_self i)] at hrun
+      obtain ⟨j, st', a1, a2, a3⟩ := ih (i + 1) { st with cseqNo := st.cseqNo * 10 + dval b[i] } (by omega) (by omega) he
+        hs (by show st.cseqNo * 10 + dval b[i] ≤ 4294967295; omega)
+        (fun x hx => hd x (List.mem_cons_of_mem _ hx)) hbig
+      exact ⟨j, st', by omega, a2, by rw [hrun]; exact a3⟩
+
+/-- **ParseCSeqVal resumed (or called) inside the number**: see `afb_uint_big_resumed` -/
+theorem afb_cseq_big_resumed (b : Buf) (i e : Nat) (st : PCSeqBody) (hs : st.state = .foundDigit) (h : CsNum b i st)
+    (hv : st.cseqNo ≤ 4294967295) (hie : i ≤ e) (he : e ≤ b.size) (hd : AllDigits (digitsOf b i e))
+    (hbig : decOf (digitsOf b st.soffs e) > 4294967295) :
+    ∃ j st', i ≤ j ∧ j < e ∧ parseCSeqVal b i st = (j, .numTooBig, st') := by
+  obtain ⟨h1, _, h3⟩ := h.found hs
+  unfold parseCSeqVal
+  rw [if_neg (by rw [hs]; decide)]
+  refine afb_cs_run_big b e (e - i) i st rfl hie he hs hv hd ?_
+  rw [afb_digitsOf_split b st.soffs i e (by omega) hie, decOf, afb_decFrom_append, ← decOf, ← h3] at hbig
+  exact hbig
+
+theorem afb_cseq_big_rejected (b : Buf) (o e : Nat) (st : PCSeqBody) (hs : st.state = .init) (hoe : o < e)
+    (he : e ≤ b.size) (hd : AllDigits (digitsOf b o e)) (hbig : decOf (digitsOf b o e) > 4294967295) :
+    ∃ j st', o < j ∧ j < e ∧ parseCSeqVal b o st = (j, .numTooBig, st') := by
+  have hlt : o < b.size := by omega
+  have hb : b[o]? = some b[o] := Array.getElem?_eq_getElem hlt
+  rw [afb_digitsOf_cons b o e b[o] hb hoe] at hd hbig
+  have hc : IsDigitB b[o] := hd _ List.mem_cons_self
+  have hstep : csStep b o b[o] st = .cont (o + 1) { st with state := .foundDigit, soffs := o, cseqNo := b[o].toNat - 48 } := by
+    unfold csStep
+    rw [afb_notLWS_of_B hc, afb_isDigit_of_B hc, hs]
+    simp only [Bool.false_eq_true, if_false, if_true]
+  have hrun := runLoop_cont csMachine hb hstep
+  rw [if_pos (Nat.lt_succ_self o)] at hrun
+  rw [decOf, decFrom_cons, dval_def] at hbig
+  have h9 := hc.2
+  obtain ⟨j, st', a1, a2, a3⟩ := afb_cs_run_big b e (e - (o + 1)) (o + 1)
+    { st with state := .foundDigit, soffs := o, cseqNo := b[o].toNat - 48 } rfl (by omega) he rfl
+    (by show b[o].toNat - 48 ≤ 4294967295; omega) (fun x hx => hd x (List.mem_cons_of_mem _ hx))
+    (by simpa using hbig)
+  refine ⟨j, st', by omega, a2, ?_⟩
+  unfold parseCSeqVal
+  rw [if_neg (by rw [hs]; decide), hrun]; exact a3
+
+/-- **ParseCSeqVal, new object, optional leading spaces / tabs, then a digit string of value above 2^32-1**: rejected
+    with NumTooBig at one of the digits, whatever follows them (method or not) -/
+theorem afb_cseq_big_rejected_ws (b : Buf) (o i e : Nat) (st : PCSeqBody) (hs : st.state = .init) (hoi : o ≤ i)
+    (hws : AfbWsRun b o i) (hie : i < e) (he : e ≤ b.size) (hd : AllDigits (digitsOf b i e))
+    (hbig : decOf (digitsOf b i e) > 4294967295) :
+    ∃ j st', i < j ∧ j < e ∧ parseCSeqVal b o st = (j, .numTooBig, st') := by
+  rcases Nat.eq_or_lt_of_le hoi with heq | hlt
+  · subst heq; exact afb_cseq_big_rejected b o e st hs hie he hd hbig
+  · have hbi : b[i]? = some b[i] := Array.getElem?_eq_getElem (by omega)
+    have hci : IsDigitB b[i] := by
+      rw [afb_digitsOf_cons b i e b[i] hbi hie] at hd
+      exact hd _ List.mem_cons_self
+    obtain ⟨w, hw, hww⟩ := hws o (Nat.le_refl _) hlt
+    have hstep : csStep b o w st = .cont i st := by
+      unfold csStep
+      rw [afb_isLWS_of_WS hww, hs]
+      simp only [if_true]
+      exact afb_lwsStd_ws_run b o i b[i] st (csEOH b) id hbi (afb_notWS_of_B hci).1 (afb_notWS_of_B hci).2 hoi hws
+    have hrun := runLoop_cont csMachine hw hstep
+    rw [if_pos hlt] at hrun
+    obtain ⟨j, st', a1, a2, a3⟩ := afb_cseq_big_rejected b i e st hs hie he hd hbig
+    refine ⟨j, st', a1, a2, ?_⟩
+    unfold parseCSeqVal at a3 ⊢
+    rw [if_neg (by rw [hs]; decide)] at a3 ⊢
+    rw [hrun]; exact a3
+
+/-! ### packaged: "exact AND in range", for new or legitimately suspended objects, and for every chunk schedule -/
+
+/-- what a caller may legitimately pass to ParseUIntVal / ParseCLenVal: an offset inside the buffer and an object that
+    is new (`afb_ClLegit_new`) or was returned with MoreBytes by a call on a prefix of the buffer (`afb_uint_more_legit`) -/
+def AfbClLegit (b : Buf) (o : Nat) (st : PUIntBody) : Prop := o ≤ b.size ∧ ClNum b o st ∧ st.uiVal ≤ 4294967295
+
+theorem afb_ClLegit_new (b : Buf) (o : Nat) (ho : o ≤ b.size) : AfbClLegit b o {} :=
+  ⟨ho, ClNum_new b o, Nat.zero_le _⟩
+
+/-- **C10 for ParseUIntVal (= ParseExpiresVal) at run level**: after OK the reported field is a non-empty digit string
+    of the buffer, the reported number is exactly its decimal value, and it does not exceed 2^32-1 -/
+theorem afb_uint_exact_in_range (b : Buf) (o : Nat) (st : PUIntBody) (hfit : b.size ≤ 65535) (h : AfbClLegit b o st)
+    {o' : Nat} {st' : PUIntBody} (hr : parseUIntVal b o st = (o', .ok, st')) :
+    NumDone b st'.sVal st'.uiVal ∧ st'.uiVal ≤ 4294967295 :=
+  ⟨parseUIntVal_exact b o st hfit h.1 h.2.1 hr, afb_uint_ok_le b o st h.2.2 hr⟩
+
+theorem afb_uint_more_legit (b s : Buf) (o : Nat) (st : PUIntBody) (hfit : b.size ≤ 65535) (h : AfbClLegit b o st)
+    {o' : Nat} {st' : PUIntBody} (hr : parseUIntVal b o st = (o', .moreBytes, st')) : AfbClLegit (b ++ s) o' st' := by
+  obtain ⟨a1, a2, _⟩ := afb_uint_more_inv b s o st hfit h.1 h.2.1 hr
+  refine ⟨by rw [Array.size_append]; omega, a1, ?_⟩
+  have := afb_parseUIntVal_u32 b o st h.2.2
+  rw [hr] at this; exact this
+
+/-- **C10 for ParseCLenVal at run level**: exact, at most 9 digits, at most 2^24 -/
+theorem afb_clen_exact_in_range (b : Buf) (o : Nat) (st : PUIntBody) (hfit : b.size ≤ 65535) (h : AfbClLegit b o st)
+    {o' : Nat} {st' : PUIntBody} (hr : parseCLenVal b o st = (o', .ok, st')) :
+    NumDone b st'.sVal st'.uiVal ∧ st'.uiVal ≤ 16777216 ∧ st'.sVal.len ≤ 9 := by
+  refine ⟨parseCLenVal_exact b o st hfit h.1 h.2.1 hr, ?_⟩
+  unfold parseCLenVal at hr
+  rcases hp : parseUIntVal b o st with ⟨o1, e1, s1⟩
+  rw [hp] at hr
+  cases e1 <;> simp only at hr
+  case ok =>
+    split at hr
+    · cases hr
+    · rename_i hn
+      cases hr
+      simp only [MaxCLenValueSize, MaxClenValue, Bool.or_eq_true, not_or] at hn
+      have h1 : ¬ st'.sVal.len > 9 := by simpa using hn.1
+      have h2 : ¬ st'.uiVal > 16777216 := by simpa using hn.2
+      exact ⟨by omega, by omega⟩
+  all_goals cases hr
+
+theorem afb_clen_more_legit (b s : Buf) (o : Nat) (st : PUIntBody) (hfit : b.size ≤ 65535) (h : AfbClLegit b o st)
+    {o' : Nat} {st' : PUIntBody} (hr : parseCLenVal b o st = (o', .moreBytes, st')) : AfbClLegit (b ++ s) o' st' := by
+  obtain ⟨a1, a2, _⟩ := afb_clen_more_inv b s o st hfit h.1 h.2.1 hr
+  refine ⟨by rw [Array.size_append]; omega, a1, ?_⟩
+  have := afb_parseCLenVal_u32 b o st h.2.2
+  rw [hr] at this; exact this
+
+/-- what a caller may legitimately pass to ParseCSeqVal (not a finished object: passing one again returns it
+    unchanged, see `finished_cseq`) -/
+def AfbCsLegit (b : Buf) (o : Nat) (st : PCSeqBody) : Prop :=
+  o ≤ b.size ∧ CsNum b o st ∧ st.cseqNo ≤ 4294967295 ∧ st.state ≠ .fin
+
+theorem afb_CsLegit_new (b : Buf) (o : Nat) (ho : o ≤ b.size) : AfbCsLegit b o {} :=
+  ⟨ho, CsNum_new b o, Nat.zero_le _, (fun hh => by cases hh)⟩
+
+/-- **C10 for ParseCSeqVal at run level**: after OK the reported number field is a non-empty digit string of the
+    buffer of at most 10 digits, the reported number is exactly its decimal value, and it does not exceed 2^32-1 -/
+theorem afb_cseq_exact_in_range (b : Buf) (o : Nat) (st : PCSeqBody) (hfit : b.size ≤ 65535) (h : AfbCsLegit b o st)
+    {o' : Nat} {st' : PCSeqBody} (hr : parseCSeqVal b o st = (o', .ok, st')) :
+    NumDone b st'.cseq st'.cseqNo ∧ st'.cseqNo ≤ 4294967295 ∧ st'.cseq.len ≤ 10 :=
+  ⟨parseCSeqVal_exact b o st hfit h.1 h.2.1 (fun hf => absurd hf h.2.2.2) hr,
+   afb_cseq_ok_le b o st h.2.2.1 (fun hf => absurd hf h.2.2.2) hr⟩
+
+theorem afb_cseq_more_legit (b s : Buf) (o : Nat) (st : PCSeqBody) (hfit : b.size ≤ 65535) (h : AfbCsLegit b o st)
+    {o' : Nat} {st' : PCSeqBody} (hr : parseCSeqVal b o st = (o', .moreBytes, st')) : AfbCsLegit (b ++ s) o' st' := by
+  obtain ⟨a1, a2, a3⟩ := afb_cseq_more_inv b s o st hfit h.1 h.2.1 hr
+  refine ⟨by rw [Array.size_append]; omega, a1, ?_, a3⟩
+  have := (afb_parseCSeqVal_range b o st h.2.2.1 (fun hf => absurd hf h.2.2.2)).1
+  rw [hr] at this; exact this
+
+/-- a post-condition of every single call from a legitimate state, the legitimacy being re-established at every
+    suspension, holds of the caller's loop over any growing sequence of buffers, relative to the buffer of the call
+    that produced the result -/
+theorem afb_resumeRun_post {σ : Type} (P : Parser σ) (Inv : Buf → Nat → σ → Prop)
+    (Q : Buf → Nat × Err × σ → Prop) (C : Buf → Prop)
+    (hP : ∀ b o st, C b → Inv b o st → Q b (P b o st) ∧
+      ((P b o st).2.1 = .moreBytes → ∀ s, Inv (b ++ s) (P b o st).1 (P b o st).2.2))
+    (o : Nat) (st : σ) (l : List Buf) (hg : Growing l) (hC : ∀ x ∈ l, C x) (hne : l ≠ [])
+    (h0 : ∀ b ∈ l.head?, Inv b o st) : ∃ b ∈ l, Q b (resumeRun P o st l) := by
+  induction l generalizing o st with
+  | nil => exact absurd rfl hne
+  | cons b rest ih =>
+    have hI : Inv b o st := h0 b (by simp)
+    have hCb : C b := hC b List.mem_cons_self
+    have hb := hP b o st hCb hI
+    cases rest with
+    | nil => exact ⟨b, List.mem_cons_self, hb.1⟩
+    | cons b' rest' =>
+      simp only [resumeRun]
+      rcases hp : P b o st with ⟨o1, e1, s1⟩
+      rw [hp] at hb
+      have hdone : e1 ≠ .moreBytes → ∃ x ∈ b :: b' :: rest', Q x (o1, e1, s1) :=
+        fun _ => ⟨b, List.mem_cons_self, hb.1⟩
+      cases e1 <;> simp only <;> try exact hdone (by decide)
+      have hinv := hb.2 rfl
+      obtain ⟨s', hs'⟩ := growing_ext hg b' List.mem_cons_self
+      obtain ⟨x, hx, hq⟩ := ih o1 s1 (growing_tail hg) (fun x hx => hC x (List.mem_cons_of_mem _ hx)) (by simp)
+        (by intro x hx; simp at hx; subst hx; rw [hs']; exact hinv s')
+      exact ⟨x, List.mem_cons_of_mem _ hx, hq⟩
+
+/-- **ParseUIntVal under every chunk schedule from a new object**: if the chain of resumed calls ends with OK, the
+    reported field is a digit string of the buffer of the call that finished, the number is its exact value, ≤ 2^32-1 -/
+theorem afb_uint_schedule (o : Nat) (l : List Buf) (hg : Growing l) (hfit : ∀ x ∈ l, x.size ≤ 65535) (hne : l ≠ [])
+    (h0 : ∀ b ∈ l.head?, o ≤ b.size) {o' : Nat} {st' : PUIntBody}
+    (hr : resumeRun parseUIntVal o {} l = (o', .ok, st')) :
+    ∃ b ∈ l, NumDone b st'.sVal st'.uiVal ∧ st'.uiVal ≤ 4294967295 := by
+  have := afb_resumeRun_post parseUIntVal AfbClLegit
+    (fun b r => r.2.1 = .ok → NumDone b r.2.2.sVal r.2.2.uiVal ∧ r.2.2.uiVal ≤ 4294967295) (fun b => b.size ≤ 65535)
+    (fun b o st hC hI => ⟨fun he => afb_uint_exact_in_range b o st hC hI (o' := (parseUIntVal b o st).1) (by rw [← he]),
+      fun he s => afb_uint_more_legit b s o st hC hI (by rw [← he])⟩)
+    o {} l hg hfit hne (fun b hb => afb_ClLegit_new b o (h0 b hb))
+  rw [hr] at this
+  obtain ⟨b, hb, hq⟩ := this
+  exact ⟨b, hb, hq rfl⟩
+
+theorem afb_clen_schedule (o : Nat) (l : List Buf) (hg : Growing l) (hfit : ∀ x ∈ l, x.size ≤ 65535) (hne : l ≠ [])
+    (h0 : ∀ b ∈ l.head?, o ≤ b.size) {o' : Nat} {st' : PUIntBody}
+    (hr : resumeRun parseCLenVal o {} l = (o', .ok, st')) :
+    ∃ b ∈ l, NumDone b st'.sVal st'.uiVal ∧ st'.uiVal ≤ 16777216 ∧ st'.sVal.len ≤ 9 := by
+  have := afb_resumeRun_post parseCLenVal AfbClLegit
+    (fun b r => r.2.1 = .ok → NumDone b r.2.2.sVal r.2.2.uiVal ∧ r.2.2.uiVal ≤ 16777216 ∧ r.2.2.sVal.len ≤ 9)
+    (fun b => b.size ≤ 65535)
+    (fun b o st hC hI => ⟨fun he => afb_clen_exact_in_range b o st hC hI (o' := (parseCLenVal b o st).1) (by rw [← he]),
+      fun he s => afb_clen_more_legit b s o st hC hI (by rw [← he])⟩)
+    o {} l hg hfit hne (fun b hb => afb_ClLegit_new b o (h0 b hb))
+  rw [hr] at this
+  obtain ⟨b, hb, hq⟩ := this
+  exact ⟨b, hb, hq rfl⟩
+
+theorem afb_cseq_schedule (o : Nat) (l : List Buf) (hg : Growing l) (hfit : ∀ x ∈ l, x.size ≤ 65535) (hne : l ≠ [])
+    (h0 : ∀ b ∈ l.head?, o ≤ b.size) {o' : Nat} {st' : PCSeqBody}
+    (hr : resumeRun parseCSeqVal o {} l = (o', .ok, st')) :
+    ∃ b ∈ l, NumDone b st'.cseq st'.cseqNo ∧ st'.cseqNo ≤ 4294967295 ∧ st'.cseq.len ≤ 10 := by
+  have := afb_resumeRun_post parseCSeqVal AfbCsLegit
+    (fun b r => r.2.1 = .ok → NumDone b r.2.2.cseq r.2.2.cseqNo ∧ r.2.2.cseqNo ≤ 4294967295 ∧ r.2.2.cseq.len ≤ 10)
+    (fun b => b.size ≤ 65535)
+    (fun b o st hC hI => ⟨fun he => afb_cseq_exact_in_range b o st hC hI (o' := (parseCSeqVal b o st).1) (by rw [← he]),
+      fun he s => afb_cseq_more_legit b s o st hC hI (by rw [← he])⟩)
+    o {} l hg hfit hne (fun b hb => afb_CsLegit_new b o (h0 b hb))
+  rw [hr] at this
+  obtain ⟨b, hb, hq⟩ := this
+  exact ⟨b, hb, hq rfl⟩
+
+/-! ### (A) tests / non-vacuity: the general theorems instantiated on concrete inputs (closed computations by
+    `decide +kernel`; these are examples, not the general claims) -/
+
+/-- "  4711 CRLF X" -/
+def afbBufClen : Buf := #[32, 32, 52, 55, 49, 49, 13, 10, 88]
+/-- "42 INVITE CRLF X" -/
+def afbBufCSeq : Buf := #[52, 50, 32, 73, 78, 86, 73, 84, 69, 13, 10, 88]
+/-- " 4294967296 CRLF X": 2^32 -/
+def afbBufBig : Buf := #[32, 52, 50, 57, 52, 57, 54, 55, 50, 57, 54, 13, 10, 88]
+
+/-- test: `uint_value_exact` (`parseUIntVal_exact`) + range on a concrete run from a new object -/
+example : NumDone afbBufClen ⟨2, 4⟩ 4711 ∧ 4711 ≤ 4294967295 := by
+  have hr : parseUIntVal afbBufClen 0 {} = (8, .ok, { uiVal := 4711, sVal := ⟨2, 4⟩, state := .fin }) := by
+    decide +kernel
+  exact afb_uint_exact_in_range afbBufClen 0 {} (by decide) (afb_ClLegit_new _ 0 (by decide)) hr
+
+/-- test: `clen_value_exact` (`parseCLenVal_exact`) + range -/
+example : NumDone afbBufClen ⟨2, 4⟩ 4711 ∧ 4711 ≤ 16777216 ∧ (⟨2, 4⟩ : PField).len ≤ 9 := by
+  have hr : parseCLenVal afbBufClen 0 {} = (8, .ok, { uiVal := 4711, sVal := ⟨2, 4⟩, state := .fin }) := by
+    decide +kernel
+  exact afb_clen_exact_in_range afbBufClen 0 {} (by decide) (afb_ClLegit_new _ 0 (by decide)) hr
+
+/-- test: `cseq_value_exact` (`parseCSeqVal_exact`) + range -/
+example : NumDone afbBufCSeq (parseCSeqVal afbBufCSeq 0 {}).2.2.cseq 42 := by
+  have hr : parseCSeqVal afbBufCSeq 0 {} = (11, .ok, (parseCSeqVal afbBufCSeq 0 {}).2.2) := by decide +kernel
+  have hv : (parseCSeqVal afbBufCSeq 0 {}).2.2.cseqNo = 42 := by decide +kernel
+  have := (afb_cseq_exact_in_range afbBufCSeq 0 {} (by decide) (afb_CsLegit_new _ 0 (by decide)) hr).1
+  rw [hv] at this; exact this
+
+/-- test: a suspended object ("  47", then the rest): the resumed call meets the hypotheses by `afb_clen_more_legit` -/
+example : NumDone afbBufClen ⟨2, 4⟩ 4711 ∧ 4711 ≤ 16777216 ∧ (⟨2, 4⟩ : PField).len ≤ 9 := by
+  have h1 : parseCLenVal #[32, 32, 52, 55] 0 {} = (4, .moreBytes, { uiVal := 47, state := .found, soffs := 2 }) := by
+    decide +kernel
+  have hl := afb_clen_more_legit #[32, 32, 52, 55] #[49, 49, 13, 10, 88] 0 {} (by decide) (afb_ClLegit_new _ 0 (by decide)) h1
+  have h2 : parseCLenVal (#[32, 32, 52, 55] ++ #[49, 49, 13, 10, 88]) 4 { uiVal := 47, state := .found, soffs := 2 } =
+      (8, .ok, { uiVal := 4711, sVal := ⟨2, 4⟩, state := .fin }) := by decide +kernel
+  exact afb_clen_exact_in_range _ 4 _ (by decide) hl h2
+
+/-- test: the hypotheses of the rejection theorem are satisfiable: 2^32 after one space -/
+example : ∃ j st', 1 < j ∧ j < 11 ∧ parseUIntVal afbBufBig 0 {} = (j, .numTooBig, st') := by
+  refine afb_uint_big_rejected_ws afbBufBig 0 1 11 {} rfl (by decide) ?_ (by decide) (by decide) ?_ (by decide +kernel)
+  · intro k h1 h2
+    have : k = 0 := by omega
+    subst this; exact ⟨32, by decide, by decide⟩
+  · intro c hc
+    have : c ∈ [52, 50, 57, 52, 57, 54, 55, 50, 57, 54] := by
+      have h : digitsOf afbBufBig 1 11 = [52, 50, 57, 52, 57, 54, 55, 50, 57, 54] := by decide +kernel
+      rw [h] at hc; exact hc
+    simp only [List.mem_cons, List.not_mem_nil, or_false] at this
+    rcases this with h | h | h | h | h | h | h | h | h | h <;> (subst h; unfold IsDigitB; decide)
+
+/-- test: the concrete verdict -/
+example : (parseUIntVal afbBufBig 0 {}).2.1 = .numTooBig ∧ (parseCSeqVal afbBufBig 0 {}).2.1 = .numTooBig := by
+  decide +kernel
+
+/-! ## (B) C12: Reset / Init make a used object behave like a new one
+
+  In the model the result of a call is a function of (buffer, offset, flags, object), so "behaves like a new object on
+  every later input" is: the object after Reset / Init EQUALS the new object (then every later call returns the same). -/
+
+/-! ### (B i) PSIPMsg, no side condition: every object reachable by ANY history -/
+
+/-- the new message object: header array of `kh` cleared entries, contact array of `kc` cleared entries; `len` is the
+    length of the retained `Buf` slice (the parser never reads it, see `afb_parseSIPMsg_bufLen`) -/
+def afbNewMsg (len kh kc : Nat) : PSIPMsg :=
+  { bufLen := len, hl := { hdrs := Array.replicate kh {} }, pv := { contacts := { vals := Array.replicate kc {} } } }
+
+/-- `afbNewMsg` is what Init produces from ANY object given cleared caller arrays -/
+theorem afb_newMsg_eq_init (m0 : PSIPMsg) (len kh kc : Nat) :
+    m0.init len (some (Array.replicate kh {})) (some (Array.replicate kc {})) = afbNewMsg len kh kc := rfl
+
+/-- **PSIPMsg.Init, EVERY object `m` (reachable or not), every argument**: the result does not depend on `m` at all; it
+    is the zero object over the GIVEN arrays (`none` = nil: the private 10-element arrays, which the Reset inside Init
+    has just zeroed).  Init does not clear the caller's arrays: the result is the new object iff they are cleared. -/
+theorem afb_msg_init_any (m : PSIPMsg) (len : Nat) (hdrs : Option (Array Hdr)) (cts : Option (Array PFromBody)) :
+    m.init len hdrs cts =
+      { bufLen := len, hl := { hdrs := hdrs.getD (Array.replicate 10 {}) },
+        pv := { contacts := { vals := cts.getD (Array.replicate 10 {}) } } } := rfl
+
+theorem afb_msg_init_indep (m m' : PSIPMsg) (len : Nat) (hdrs : Option (Array Hdr)) (cts : Option (Array PFromBody)) :
+    m.init len hdrs cts = m'.init len hdrs cts := rfl
+
+/-- **Init of any used object with cleared arrays behaves like new**: every later call — any buffer, offset, flags —
+    returns what it returns on the new object -/
+theorem afb_msg_init_like_new (m : PSIPMsg) (len kh kc : Nat) (b : Buf) (o flags : Nat) :
+    parseSIPMsg b o (m.init len (some (Array.replicate kh {})) (some (Array.replicate kc {}))) flags =
+      parseSIPMsg b o (afbNewMsg len kh kc) flags := rfl
+
+/-- **C12 for PSIPMsg.Reset, no side condition**: for every object reachable by any history of Init (cleared arrays or
+    nil) / ParseSIPMsg (any buffer, offset, flags, verdict) / Reset calls, Reset gives literally the new object with
+    the same array capacities -/
+theorem afb_msg_reset_reach {m : PSIPMsg} (hR : ScReach m) :
+    m.reset = afbNewMsg m.bufLen m.hl.hdrs.size m.pv.contacts.vals.size := by
+  rw [sc_reset_after_history hR]; rfl
+
+/-- … hence for EVERY later buffer / offset / flags the call on the Reset object returns what it returns on the new
+    object: "behaves like new" -/
+theorem afb_msg_reset_like_new {m : PSIPMsg} (hR : ScReach m) (b : Buf) (o flags : Nat) :
+    parseSIPMsg b o m.reset flags = parseSIPMsg b o (afbNewMsg m.bufLen m.hl.hdrs.size m.pv.contacts.vals.size) flags := by
+  rw [afb_msg_reset_reach hR]
+
+/-- … and so does every chain of resumed calls (every chunk schedule) -/
+theorem afb_msg_reset_like_new_schedule {m : PSIPMsg} (hR : ScReach m) (flags o : Nat) (l : List Buf) :
+    resumeRun (fun b o m => parseSIPMsg b o m flags) o m.reset l =
+      resumeRun (fun b o m => parseSIPMsg b o m flags) o
+        (afbNewMsg m.bufLen m.hl.hdrs.size m.pv.contacts.vals.size) l := by
+  rw [afb_msg_reset_reach hR]
+
+/-- the same with Init in place of Reset, the caller handing back the object's own (just cleared) arrays — what the
+    driver's op `I` does: the new object -/
+theorem afb_msg_reinit_reach {m : PSIPMsg} (hR : ScReach m) (len : Nat) :
+    m.init len (some m.reset.hl.hdrs) (some m.reset.pv.contacts.vals) =
+      afbNewMsg len m.hl.hdrs.size m.pv.contacts.vals.size := by
+  rw [afb_msg_reset_reach hR]; rfl
+
+/-- the objects produced by Reset / Init are again reachable (the statements iterate) -/
+theorem afb_reach_reset {m : PSIPMsg} (hR : ScReach m) : ScReach m.reset := ScReach.reset hR
+
+theorem afb_reach_newMsg (len kh kc : Nat) : ScReach (afbNewMsg len kh kc) := by
+  have := ScReach.init ({} : PSIPMsg) len kh kc (some ()) (some ())
+  exact this
+
+/-! #### the retained buffer length is write-only for the parser -/
+
+/-- same offset, same verdict, objects equal up to the retained buffer length — and equal after OK -/
+def AfbLenEq (r1 r2 : Nat × Err × PSIPMsg) : Prop :=
+  r1.1 = r2.1 ∧ r1.2.1 = r2.2.1 ∧ ({ r1.2.2 with bufLen := 0 } : PSIPMsg) = { r2.2.2 with bufLen := 0 } ∧
+    (r2.2.1 = .ok → r1.2.2 = r2.2.2)
+
+theorem afb_msgEnd_bufLen (m : PSIPMsg) (b : Buf) (o x : Nat) : msgEnd { m with bufLen := x } b o = msgEnd m b o := rfl
+
+theorem afb_lenEq_refl (r : Nat × Err × PSIPMsg) : AfbLenEq r r := ⟨rfl, rfl, rfl, fun _ => rfl⟩
+
+theorem afb_msgErr_lenEq (m : PSIPMsg) (o : Nat) (e : Err) (flags x : Nat) (he : e ≠ .ok) :
+    AfbLenEq (msgErr { m with bufLen := x } o e flags) (msgErr m o e flags) := by
+  unfold msgErr
+  split
+  · exact ⟨rfl, rfl, rfl, fun hh => absurd hh he⟩
+  · split
+    · exact ⟨rfl, rfl, rfl, fun hh => by cases hh⟩
+    · exact ⟨rfl, rfl, rfl, fun hh => absurd hh he⟩
+
+theorem afb_msgBody_lenEq (b : Buf) (o : Nat) (m : PSIPMsg) (flags x : Nat) :
+    AfbLenEq (msgBody b o { m with bufLen := x } flags) (msgBody b o m flags) := by
+  unfold msgBody
+  simp only
+  split
+  · split
+    · exact ⟨rfl, rfl, rfl, fun hh => by cases hh⟩
+    · exact afb_lenEq_refl _
+  · split
+    · split
+      · split
+        · exact afb_lenEq_refl _
+        · exact ⟨rfl, rfl, rfl, fun hh => by cases hh⟩
+      · exact afb_lenEq_refl _
+    · split <;> exact afb_lenEq_refl _
+
+theorem afb_msgHeaders_lenEq (b : Buf) (o : Nat) (m : PSIPMsg) (flags x : Nat) :
+    AfbLenEq (msgHeaders b o { m with bufLen := x } flags) (msgHeaders b o m flags) := by
+  unfold msgHeaders
+  simp only
+  rcases hp : parseHeaders b o m.hl (some m.pv) with ⟨o1, e1, hl1, hb1⟩
+  cases e1 <;> simp only
+  case ok => exact afb_msgBody_lenEq b o1 { m with hl := hl1, pv := hb1.getD m.pv, state := .body } flags x
+  all_goals exact afb_msgErr_lenEq { m with hl := hl1, pv := hb1.getD m.pv } o1 _ flags x (by decide)
+
+theorem afb_msgFLine_lenEq (b : Buf) (o : Nat) (m : PSIPMsg) (flags x : Nat) :
+    AfbLenEq (msgFLine b o { m with bufLen := x } flags) (msgFLine b o m flags) := by
+  unfold msgFLine
+  simp only
+  rcases hp : parseFLine b o m.fl with ⟨o1, e1, fl1⟩
+  cases e1 <;> simp only
+  case ok => exact afb_msgHeaders_lenEq b o1 { m with fl := fl1, state := .headers } flags x
+  all_goals exact afb_msgErr_lenEq { m with fl := fl1 } o1 _ flags x (by decide)
+
+theorem afb_parseSIPMsg_bufLen (b : Buf) (o : Nat) (m : PSIPMsg) (flags x : Nat) :
+    AfbLenEq (parseSIPMsg b o { m with bufLen := x } flags) (parseSIPMsg b o m flags) := by
+  unfold parseSIPMsg
+  simp only
+  split
+  · exact afb_msgFLine_lenEq b o { m with offs := o, state := .fline } flags x
+  · exact afb_msgFLine_lenEq b o m flags x
+  · exact afb_msgHeaders_lenEq b o m flags x
+  · exact afb_msgBody_lenEq b o m flags x
+  · exact afb_msgErr_lenEq m o _ flags x (by decide)
+
+/-- **Reset of a reachable object against the new object with NO retained buffer** (what the driver's `msg` creates):
+    every later call returns the same offset and verdict, the same object up to the length of the retained `Buf`
+    slice, and after OK the very same object -/
+theorem afb_msg_reset_like_new0 {m : PSIPMsg} (hR : ScReach m) (b : Buf) (o flags : Nat) :
+    AfbLenEq (parseSIPMsg b o m.reset flags)
+      (parseSIPMsg b o (afbNewMsg 0 m.hl.hdrs.size m.pv.contacts.vals.size) flags) := by
+  rw [afb_msg_reset_reach hR]
+  exact afb_parseSIPMsg_bufLen b o (afbNewMsg 0 m.hl.hdrs.size m.pv.contacts.vals.size) flags m.bufLen
+
+/-! ### (B i') PHdrVals / PContacts used stand-alone (ParseHdrLine / ParseHeaders with a header-values object,
+    ParseAllContactValues), no side condition: every object reachable by any history -/
+
+/-- the new header-values object over a cleared contact array of `kc` entries -/
+def afbNewHv (kc : Nat) : PHdrVals := { contacts := { vals := Array.replicate kc {} } }
+
+/-- the life of a header-values object: new / Init with a cleared array, then any sequence of Reset, ParseHdrLine and
+    ParseHeaders calls (any buffer, offset, header object / list, verdict) -/
+inductive AfbHvReach : PHdrVals → Prop
+  | new (kc : Nat) : AfbHvReach (afbNewHv kc)
+  | init (hv : PHdrVals) (kc : Nat) : AfbHvReach (hv.init (Array.replicate kc {}))
+  | reset {hv : PHdrVals} : AfbHvReach hv → AfbHvReach hv.reset
+  | hdrline {hv hv' : PHdrVals} (b : Buf) (o : Nat) (h : Hdr) : AfbHvReach hv →
+      (parseHdrLine b o h (some hv)).2.2.2 = some hv' → AfbHvReach hv'
+  | headers {hv hv' : PHdrVals} (b : Buf) (o : Nat) (hl : HdrLst) : AfbHvReach hv →
+      (parseHeaders b o hl (some hv)).2.2.2 = some hv' → AfbHvReach hv'
+
+theorem afb_hv_reset_of_tail (hv : PHdrVals) (H : TailZero hv.contacts.vals {} hv.contacts.n) :
+    hv.reset = afbNewHv hv.contacts.vals.size := by
+  have h2 : hv.reset.contacts.vals = Array.replicate hv.contacts.vals.size {} :=
+    clearUpToP_of_tailZero hv.contacts.vals {} hv.contacts.n H
+  unfold PHdrVals.reset PContacts.reset afbNewHv
+  unfold PHdrVals.reset PContacts.reset at h2
+  simp only at h2
+  rw [h2]
+
+theorem AfbHvReach.inv {hv : PHdrVals} (h : AfbHvReach hv) : TailZero hv.contacts.vals {} hv.contacts.n := by
+  induction h with
+  | new kc => exact tailZero_new ({} : PFromBody) kc 0
+  | init hv kc => exact tailZero_new ({} : PFromBody) kc 0
+  | @reset hv _ ih => rw [afb_hv_reset_of_tail hv ih]; exact tailZero_new ({} : PFromBody) _ 0
+  | hdrline b o h _ hr ih => exact sc_ct_parseHdrLine b o h _ (ScHb_some ih) _ hr
+  | headers b o hl _ hr ih => exact sc_ct_parseHeaders b o hl _ (ScHb_some ih) _ hr
+
+/-- **C12 for PHdrVals.Reset, no side condition** -/
+theorem afb_hv_reset_reach {hv : PHdrVals} (hR : AfbHvReach hv) : hv.reset = afbNewHv hv.contacts.vals.size :=
+  afb_hv_reset_of_tail hv hR.inv
+
+/-- … behaves like new in every later ParseHdrLine / ParseHeaders call -/
+theorem afb_hv_reset_like_new {hv : PHdrVals} (hR : AfbHvReach hv) (b : Buf) (o : Nat) :
+    (∀ h : Hdr, parseHdrLine b o h (some hv.reset) = parseHdrLine b o h (some (afbNewHv hv.contacts.vals.size))) ∧
+    (∀ hl : HdrLst, parseHeaders b o hl (some hv.reset) = parseHeaders b o hl (some (afbNewHv hv.contacts.vals.size))) := by
+  rw [afb_hv_reset_reach hR]; exact ⟨fun _ => rfl, fun _ => rfl⟩
+
+/-- the new contacts object over a cleared array of `kc` entries -/
+def afbNewCt (kc : Nat) : PContacts := { vals := Array.replicate kc {} }
+
+/-- the life of a stand-alone contacts object -/
+inductive AfbCtReach : PContacts → Prop
+  | new (kc : Nat) : AfbCtReach (afbNewCt kc)
+  | reset {c : PContacts} : AfbCtReach c → AfbCtReach c.reset
+  | parse {c : PContacts} (b : Buf) (o : Nat) : AfbCtReach c → AfbCtReach (parseAllContactValues b o c).2.2
+
+theorem afb_ct_reset_of_tail (c : PContacts) (H : TailZero c.vals {} c.n) : c.reset = afbNewCt c.vals.size := by
+  have h2 : c.reset.vals = Array.replicate c.vals.size {} := clearUpToP_of_tailZero c.vals {} c.n H
+  unfold PContacts.reset afbNewCt
+  unfold PContacts.reset at h2
+  simp only at h2
+  rw [h2]
+
+theorem AfbCtReach.inv {c : PContacts} (h : AfbCtReach c) : TailZero c.vals {} c.n := by
+  induction h with
+  | new kc => exact tailZero_new ({} : PFromBody) kc 0
+  | @reset c _ ih => rw [afb_ct_reset_of_tail c ih]; exact tailZero_new ({} : PFromBody) _ 0
+  | parse b o _ ih => exact sc_ct_parseAll b o _ ih
+
+/-- **C12 for PContacts.Reset, no side condition**, and "behaves like new" -/
+theorem afb_ct_reset_reach {c : PContacts} (hR : AfbCtReach c) : c.reset = afbNewCt c.vals.size :=
+  afb_ct_reset_of_tail c hR.inv
+
+theorem afb_ct_reset_like_new {c : PContacts} (hR : AfbCtReach c) (b : Buf) (o : Nat) :
+    parseAllContactValues b o c.reset = parseAllContactValues b o (afbNewCt c.vals.size) := by
+  rw [afb_ct_reset_reach hR]
+
+/-! ### (B ii) the object types whose Go `Reset` is `*x = T{}`
+
+  PFLine, PFromBody, PCSeqBody, PCallIDBody, PUIntBody, PTokParam, Hdr, PsipURI (and URIParam, whose Reset assigns the
+  zero value to both of its fields; PPAIs too).  Checked against /repo: parse_fline.go, parse_from.go, parse_cseq.go,
+  parse_callid.go, parse_clen.go, parse_params.go, parse_headers.go, sipuri.go, parse_uri_params.go, parse_pai.go.
+
+  HONEST STATUS.  Except for `PPAIs.reset` the MODEL HAS NO Reset FUNCTION for these types: wherever Go calls such a
+  Reset the model writes the literal `{}` — the driver's op `R` (`Exec.doReset`) substitutes `{}` for a stand-alone
+  object, `HdrLst.reset` maps every slot to `{}`, the list Resets store `{}` in the slots they clear.  "Reset gives
+  the new object whatever the previous state" therefore holds BY CONSTRUCTION of the model: the statements below are
+  definitional (`rfl`) and say exactly that; their content lies in the differential check that ties the driver to
+  the Go code (an `R` line followed by any parse is compared with Go), not in a proof. -/
+
+/-- the one model function of this kind: `PPAIs.reset` returns the zero object for EVERY argument -/
+theorem afb_pais_reset (c : PPAIs) : c.reset = {} := rfl
+
+/-- the driver's Reset of a stand-alone object of these types is the substitution of the zero object, whatever the
+    object was (definitional) -/
+theorem afb_driver_reset_simple :
+    (∀ x : PFLine, Exec.doReset (.fline x) = .fline {}) ∧
+    (∀ (t : Nat) (x : PFromBody), Exec.doReset (.nameaddr t x) = .nameaddr t {}) ∧
+    (∀ x : PFromBody, Exec.doReset (.pai1 x) = .pai1 {}) ∧
+    (∀ x : PCSeqBody, Exec.doReset (.cseq x) = .cseq {}) ∧
+    (∀ x : PCallIDBody, Exec.doReset (.callid x) = .callid {}) ∧
+    (∀ x : PUIntBody, Exec.doReset (.uint x) = .uint {}) ∧
+    (∀ x : PUIntBody, Exec.doReset (.clen x) = .clen {}) ∧
+    (∀ x : PTokParam, Exec.doReset (.tokparam x) = .tokparam {}) ∧
+    (∀ x : PsipURI, Exec.doReset (.uri x) = .uri {}) ∧
+    (∀ x : PPAIs, Exec.doReset (.pais x) = .pais {}) ∧
+    (∀ (h : Hdr) (hb : Option PHdrVals), Exec.doReset (.hdrline h hb) = .hdrline {} (hb.map (·.reset))) :=
+  ⟨fun _ => rfl, fun _ _ => rfl, fun _ => rfl, fun _ => rfl, fun _ => rfl, fun _ => rfl, fun _ => rfl, fun _ => rfl,
+   fun _ => rfl, fun _ => rfl, fun _ _ => rfl⟩
+
+/-- inside the model: `HdrLst.Reset` leaves the zero header in EVERY slot, whatever was there (the per-element
+    `Hdr.Reset` of the Go loop) -/
+theorem afb_hdrlst_reset_slots (hl : HdrLst) (k : Nat) (h : k < hl.reset.hdrs.size) : hl.reset.hdrs[k] = {} := by
+  simp [HdrLst.reset]
+
+/-- inside the model: the list Resets leave the zero element in every slot up to the one in progress, whatever was
+    there (the per-element `PFromBody.Reset` / `URIParam.Reset` / `URIHdr.Reset` of the Go loops) -/
+theorem afb_clearUpTo_slots {α : Type} (a : Array α) (z : α) (n k : Nat) (hk : k ≤ n) (h : k < (clearUpTo a z n).size) :
+    (clearUpTo a z n)[k] = z := by
+  have key : ∀ (l : List Nat) (a : Array α) (h : k < (l.foldl (fun acc i => acc.set! i z) a).size),
+      (k ∈ l ∨ (∃ h' : k < a.size, a[k] = z)) → (l.foldl (fun acc i => acc.set! i z) a)[k] = z := by
+    intro l
+    induction l with
+    | nil =>
+      intro a h hh
+      rcases hh with hh | ⟨_, hh⟩
+      · cases hh
+      · exact hh
+    | cons x xs ih =>
+      intro a h hh
+      simp only [List.foldl_cons] at h ⊢
+      have hsz : ∀ (l : List Nat) (a : Array α), (l.foldl (fun acc i => acc.set! i z) a).size = a.size := by
+        intro l
+        induction l with
+        | nil => intro a; rfl
+        | cons y ys ihy => intro a; simp only [List.foldl_cons]; rw [ihy]; simp
+      have hka : k < a.size := by rw [hsz] at h; simpa using h
+      apply ih
+      by_cases hx : k = x
+      · right
+        subst hx
+        exact ⟨by simpa using hka, by simp [Array.set!_eq_setIfInBounds]⟩
+      · rcases hh with hh | ⟨h', hh⟩
+        · rcases List.mem_cons.1 hh with hh | hh
+          · exact absurd hh hx
+          · exact Or.inl hh
+        · right
+          refine ⟨by simpa using hka, ?_⟩
+          simp only [Array.set!_eq_setIfInBounds]
+          rw [Array.getElem_setIfInBounds_ne hka (fun hne => hx hne.symm)]
+          exact hh
+  unfold clearUpTo at h ⊢
+  apply key
+  left
+  have hsz : k < a.size := by
+    have : ∀ (l : List Nat) (a : Array α), (l.foldl (fun acc i => acc.set! i z) a).size = a.size := by
+      intro l
+      induction l with
+      | nil => intro a; rfl
+      | cons y ys ihy => intro a; simp only [List.foldl_cons]; rw [ihy]; simp
+    rw [this] at h; exact h
+  simp only [List.mem_range]
+  omega
+
+/-! ### (B iii) what the `Init` functions guarantee
+
+  Go: `PContacts.Init(buf)` / `URIParamsLst.Init(buf)` / `URIHdrsLst.Init(buf)` only store the slice; `PHdrVals.Init`
+  = Reset + `Contacts.Init`.  None of them clears the array it is given. -/
+
+/-- **PContacts.Init only swaps the array**: every other field keeps its value -/
+theorem afb_contacts_init (c : PContacts) (vals : Array PFromBody) : c.init vals = { c with vals := vals } := rfl
+
+/-- hence: Init after Reset (or on a new object) = the zero object over the GIVEN array, for every `c` … -/
+theorem afb_contacts_reset_init (c : PContacts) (vals : Array PFromBody) : c.reset.init vals = { vals := vals } := rfl
+
+/-- … which is the new object exactly when the given array is cleared -/
+theorem afb_contacts_init_new_iff (vals : Array PFromBody) :
+    ({ vals := vals } : PContacts).vals = (afbNewCt vals.size).vals ↔ ∀ k (h : k < vals.size), vals[k] = {} := by
+  unfold afbNewCt
+  simp only
+  constructor
+  · intro h k hk
+    have : vals[k] = (Array.replicate vals.size ({} : PFromBody))[k]'(by simpa using hk) := by
+      congr 1
+    rw [this]; simp
+  · intro h
+    apply Array.ext
+    · simp
+    · intro i h1 h2; rw [h i h1]; simp
+
+/-- **PHdrVals.Init, EVERY object `hv`**: the result does not depend on `hv`; it is the zero object over the GIVEN
+    contact array; the new object iff that array is cleared -/
+theorem afb_hdrvals_init_any (hv : PHdrVals) (cbuf : Array PFromBody) :
+    hv.init cbuf = { contacts := { vals := cbuf } } := rfl
+
+theorem afb_hdrvals_init_new (hv : PHdrVals) (kc : Nat) : hv.init (Array.replicate kc {}) = afbNewHv kc := rfl
+
+/-- the model has no `Init` for the URI lists (the driver resets them instead); this is the Go function
+    `l.Params = pbuf`, written out here only to state what it guarantees -/
+def afbUriParamsInit (l : URIParamsLst) (pbuf : Array URIParam) : URIParamsLst := { l with params := pbuf }
+def afbUriHdrsInit (l : URIHdrsLst) (hbuf : Array PTokParam) : URIHdrsLst := { l with hdrs := hbuf }
+
+/-- Init after Reset = the zero object over the given array (new iff the array is cleared); Init alone keeps the
+    count, the type flags and the scratch element of the used object -/
+theorem afb_uriparams_reset_init (l : URIParamsLst) (pbuf : Array URIParam) :
+    afbUriParamsInit l.reset pbuf = { params := pbuf } ∧ (afbUriParamsInit l pbuf).n = l.n ∧
+      (afbUriParamsInit l pbuf).types = l.types ∧ (afbUriParamsInit l pbuf).tmp = l.tmp :=
+  ⟨rfl, rfl, rfl, rfl⟩
+
+theorem afb_urihdrs_reset_init (l : URIHdrsLst) (hbuf : Array PTokParam) :
+    afbUriHdrsInit l.reset hbuf = { hdrs := hbuf } ∧ (afbUriHdrsInit l hbuf).n = l.n ∧
+      (afbUriHdrsInit l hbuf).tmp = l.tmp :=
+  ⟨rfl, rfl, rfl⟩
+
+/-- test: Init does NOT clear — a contact array holding a stale finished value, handed to Init, is not "like new":
+    the next parse of `<sip:a>` CRLF X reports the stale entry as its first contact -/
+example :
+    let stale : PFromBody := { state := .fin, expires := 7, hasExpires := true }
+    let dirty := (({} : PContacts).init #[stale, {}])
+    let clean := (({} : PContacts).init #[{}, {}])
+    let buf : Buf := #[60, 115, 105, 112, 58, 97, 62, 13, 10, 88]
+    (parseAllContactValues buf 0 dirty).2.2.maxExpires = 7 ∧ (parseAllContactValues buf 0 clean).2.2.maxExpires = 0 := by
+  decide +kernel
+
+/-- test: a used message object (failed parse), Reset, is the new object of the same capacities -/
+example : scTestUsed.reset = afbNewMsg scTestUsed.bufLen scTestUsed.hl.hdrs.size scTestUsed.pv.contacts.vals.size :=
+  afb_msg_reset_reach scTestUsed_reach
+
+/-! ## (C) C02: the missing one-step laws in exportable form and the schedule corollaries
+
+  Every statement below has the shape used in Properties/C02.lean: a one-step law (`ResumableR` / `ResumableRC`: after
+  MoreBytes the resumed call on ANY extension returns the offset, the verdict, and — unless the verdict is an error —
+  the very object of a fresh call on the extension, the same observable object after an error; the legitimacy
+  invariant is re-established) and, from the generic schedule theorem, the statement for EVERY chunk schedule. -/
+
+/-! ### (C i) ParseOnePAI (ParseNameAddrPVal for P-Asserted-Identity + the `*` value remapped to the bad-value verdict) -/
+
+/-- one-step law -/
+theorem afb_onePAI_resumableR : ResumableR parseOnePAI naOK PFromBody.obs := by
+  intro b s o st o' st' hI hr
+  obtain ⟨h1, h2, _⟩ := parseOnePAI_resumeR b s o st hI hr
+  exact ⟨h1, h2⟩
+
+/-- the one-step law spelled out, with everything the proof yields: the invariant on the extended buffer, the object
+    is not finished, the returned offset lies between the start offset and the end of the parsed buffer -/
+theorem afb_onePAI_resume (b s : Buf) (o : Nat) (pf : PFromBody) (hok : naOK b o pf)
+    {o' : Nat} {pf' : PFromBody} (hr : parseOnePAI b o pf = (o', Err.moreBytes, pf')) :
+    RR PFromBody.obs (parseOnePAI (b ++ s) o' pf') (parseOnePAI (b ++ s) o pf) ∧
+      naOK (b ++ s) o' pf' ∧ pf'.state ≠ .fin ∧ o ≤ o' ∧ o' ≤ b.size :=
+  parseOnePAI_resumeR b s o pf hok hr
+
+/-- L1: a definitive result is the result on every extension -/
+theorem afb_onePAI_stable (b s : Buf) (o : Nat) (pf : PFromBody) (hok : naOK b o pf)
+    {o' : Nat} {e : Err} {pf' : PFromBody} (hr : parseOnePAI b o pf = (o', e, pf')) (he : e ≠ .moreBytes) :
+    parseOnePAI (b ++ s) o pf = (o', e, pf') :=
+  parseOnePAI_stable b s o pf hok hr he
+
+/-- **every chunk schedule, ParseOnePAI, from any legitimate object** -/
+theorem afb_onePAI_schedule_from (o : Nat) (pf : PFromBody) (l : List Buf) (hg : Growing l)
+    (h0 : ∀ b ∈ l.head?, naOK b o pf) :
+    RR PFromBody.obs (resumeRun parseOnePAI o pf l) (oneShotRun parseOnePAI o pf l) :=
+  resumeRun_eq_oneShotR parseOnePAI naOK PFromBody.obs afb_onePAI_resumableR o pf l hg h0
+
+/-- **every chunk schedule, ParseOnePAI, from a new object** at an offset inside the first chunk -/
+theorem afb_onePAI_schedule (o : Nat) (l : List Buf) (hg : Growing l) (h0 : ∀ b ∈ l.head?, o ≤ b.size) :
+    RR PFromBody.obs (resumeRun parseOnePAI o {} l) (oneShotRun parseOnePAI o {} l) :=
+  afb_onePAI_schedule_from o {} l hg (fun b hb => naOK_new b o (h0 b hb))
+
+/-! ### (C ii) ParseFLine -/
+
+theorem afb_fline_resumableRC :
+    ResumableRC parseFLine (fun b o pl => o ≤ b.size ∧ flOK pl) (fun x => x) (fun b => b.size ≤ 65535) := by
+  intro b s o st o' st' hC hI hr
+  obtain ⟨a, b', c⟩ := parseFLine_resume b s o st hI.1 hI.2 hC hr
+  exact ⟨RR.of_eq a, by rw [Array.size_append]; omega, b'⟩
+
+theorem afb_RR_id_eq {σ : Type} {r1 r2 : Nat × Err × σ} (h : RR (fun x : σ => x) r1 r2) : r1 = r2 := by
+  obtain ⟨a1, e1, s1⟩ := r1
+  obtain ⟨a2, e2, s2⟩ := r2
+  obtain ⟨h1, h2, _, h4⟩ := h
+  simp only at h1 h2 h4
+  rw [h1, h2, h4]
+
+/-- **every chunk schedule, ParseFLine** (every chunk within the documented 65,535-byte limit), from any legitimate
+    object: the chain of resumed calls returns EXACTLY what the fresh one-shot calls return -/
+theorem afb_fline_schedule_from (o : Nat) (pl : PFLine) (l : List Buf) (hg : Growing l)
+    (hfit : ∀ x ∈ l, x.size ≤ 65535) (h0 : ∀ b ∈ l.head?, o ≤ b.size ∧ flOK pl) :
+    resumeRun parseFLine o pl l = oneShotRun parseFLine o pl l :=
+  afb_RR_id_eq (resumeRun_eq_oneShotRC parseFLine (fun b o pl => o ≤ b.size ∧ flOK pl) (fun x => x)
+    (fun b => b.size ≤ 65535) afb_fline_resumableRC o pl l hg hfit h0)
+
+theorem afb_flOK_new : flOK {} := by unfold flOK; decide
+
+/-- … from a new object -/
+theorem afb_fline_schedule (o : Nat) (l : List Buf) (hg : Growing l) (hfit : ∀ x ∈ l, x.size ≤ 65535)
+    (h0 : ∀ b ∈ l.head?, o ≤ b.size) : resumeRun parseFLine o {} l = oneShotRun parseFLine o {} l :=
+  afb_fline_schedule_from o {} l hg hfit (fun b hb => ⟨h0 b hb, afb_flOK_new⟩)
+
+/-! ### ParseAllContactValues -/
+
+theorem afb_contacts_resumableR :
+    ResumableR parseAllContactValues (fun b o c => ctOK b o c ∧ o ≤ b.size) PContacts.obs := by
+  intro b s o st o' st' hI hr
+  obtain ⟨h1, h2, _, _, h5⟩ := parseAllContactValues_resume b s o st hI.1 hI.2 hr
+  exact ⟨h1, h2, by rw [Array.size_append]; omega⟩
+
+theorem afb_contacts_schedule_from (o : Nat) (c : PContacts) (l : List Buf) (hg : Growing l)
+    (h0 : ∀ b ∈ l.head?, ctOK b o c ∧ o ≤ b.size) :
+    RR PContacts.obs (resumeRun parseAllContactValues o c l) (oneShotRun parseAllContactValues o c l) :=
+  resumeRun_eq_oneShotR parseAllContactValues _ PContacts.obs afb_contacts_resumableR o c l hg h0
+
+theorem afb_ctOK_new (b : Buf) (o : Nat) (ho : o ≤ b.size) (kc : Nat) : ctOK b o { vals := Array.replicate kc {} } := by
+  refine ⟨fun k _ hk => ?_, naOK_new b o ho⟩
+  have hk' : k < kc := by simpa using hk
+  have : (Array.replicate kc ({} : PFromBody))[k]! = {} := by simp [hk']
+  show naOK b o (Array.replicate kc ({} : PFromBody))[k]!
+  rw [this]; exact naOK_new b o ho
+
+/-- **every chunk schedule, ParseAllContactValues, from a new object** over a cleared array of any capacity -/
+theorem afb_contacts_schedule (o kc : Nat) (l : List Buf) (hg : Growing l) (h0 : ∀ b ∈ l.head?, o ≤ b.size) :
+    RR PContacts.obs (resumeRun parseAllContactValues o { vals := Array.replicate kc {} } l)
+      (oneShotRun parseAllContactValues o { vals := Array.replicate kc {} } l) :=
+  afb_contacts_schedule_from o _ l hg (fun b hb => ⟨afb_ctOK_new b o (h0 b hb) kc, h0 b hb⟩)
+
+/-! ### ParseAllPAIValues -/
+
+theorem afb_pais_resumableR :
+    ResumableR parseAllPAIValues (fun b o c => paOK b o c ∧ o ≤ b.size) PPAIs.obs := by
+  intro b s o st o' st' hI hr
+  obtain ⟨h1, h2, _, _, h5⟩ := parseAllPAIValues_resume b s o st hI.1 hI.2 hr
+  exact ⟨h1, h2, by rw [Array.size_append]; omega⟩
+
+theorem afb_pais_schedule_from (o : Nat) (c : PPAIs) (l : List Buf) (hg : Growing l)
+    (h0 : ∀ b ∈ l.head?, paOK b o c ∧ o ≤ b.size) :
+    RR PPAIs.obs (resumeRun parseAllPAIValues o c l) (oneShotRun parseAllPAIValues o c l) :=
+  resumeRun_eq_oneShotR parseAllPAIValues _ PPAIs.obs afb_pais_resumableR o c l hg h0
+
+theorem afb_paOK_new (b : Buf) (o : Nat) (ho : o ≤ b.size) : paOK b o {} := by
+  refine ⟨fun k _ hk => ?_, naOK_new b o ho⟩
+  have hk' : k < 2 := hk
+  have : k = 0 ∨ k = 1 := by omega
+  rcases this with rfl | rfl <;> exact naOK_new b o ho
+
+/-- **every chunk schedule, ParseAllPAIValues, from a new object** -/
+theorem afb_pais_schedule (o : Nat) (l : List Buf) (hg : Growing l) (h0 : ∀ b ∈ l.head?, o ≤ b.size) :
+    RR PPAIs.obs (resumeRun parseAllPAIValues o {} l) (oneShotRun parseAllPAIValues o {} l) :=
+  afb_pais_schedule_from o {} l hg (fun b hb => ⟨afb_paOK_new b o (h0 b hb), h0 b hb⟩)
+
+/-! ### ParseHdrLine -/
+
+/-- ParseHdrLine as a parser over the pair (header, header values or nil) -/
+def afbHdrLineP : Parser (Hdr × Option PHdrVals) := fun b o st => parseHdrLine b o st.1 st.2
+
+def afbHdrLineInv (b : Buf) (o : Nat) (st : Hdr × Option PHdrVals) : Prop := hlOK b o st.1 st.2 ∧ hlPending st
+
+theorem afb_hdrline_resumableR : ResumableR afbHdrLineP afbHdrLineInv hlObs := by
+  intro b s o st o' st' hI hr
+  obtain ⟨h', hb'⟩ := st'
+  obtain ⟨h1, h2, h3, _⟩ := parseHdrLine_resume b s o st.1 st.2 hI.1 hI.2 hr
+  exact ⟨h1, h2, h3⟩
+
+/-- **every chunk schedule, ParseHdrLine, from any legitimate (header, values) pair** -/
+theorem afb_hdrline_schedule_from (o : Nat) (h : Hdr) (hb : Option PHdrVals) (l : List Buf) (hg : Growing l)
+    (h0 : ∀ b ∈ l.head?, hlOK b o h hb ∧ hlPending (h, hb)) :
+    RR hlObs (resumeRun afbHdrLineP o (h, hb) l) (oneShotRun afbHdrLineP o (h, hb) l) :=
+  resumeRun_eq_oneShotR afbHdrLineP afbHdrLineInv hlObs afb_hdrline_resumableR o (h, hb) l hg h0
+
+theorem afb_hvOK_new (b : Buf) (o : Nat) (ho : o ≤ b.size) (kc : Nat) : hvOK b o (afbNewHv kc) :=
+  ⟨naOK_new b o ho, naOK_new b o ho, Or.inr ⟨ho, (fun hh => by cases hh), (fun hh => by cases hh)⟩,
+   afb_ctOK_new b o ho kc, afb_paOK_new b o ho⟩
+
+theorem afb_hbOK_new (b : Buf) (o : Nat) (ho : o ≤ b.size) (kc : Nat) (nil : Bool) :
+    hbOK b o (if nil then none else some (afbNewHv kc)) := by
+  cases nil
+  · exact afb_hvOK_new b o ho kc
+  · trivial
+
+/-- **every chunk schedule, ParseHdrLine, from a new header** with new header values (contact array of any capacity)
+    or none (`nil = true`) -/
+theorem afb_hdrline_schedule (o kc : Nat) (nil : Bool) (l : List Buf) (hg : Growing l) (h0 : ∀ b ∈ l.head?, o ≤ b.size) :
+    RR hlObs (resumeRun afbHdrLineP o ({}, if nil then none else some (afbNewHv kc)) l)
+      (oneShotRun afbHdrLineP o ({}, if nil then none else some (afbNewHv kc)) l) :=
+  afb_hdrline_schedule_from o {} _ l hg (fun b hb =>
+    ⟨⟨h0 b hb, hdrOK_new b, afb_hbOK_new b o (h0 b hb) kc nil⟩,
+     hlPending_of_not_isVal (by simp [HState.isVal])⟩)
+
+/-! ### ParseHeaders -/
+
+def afbHeadersP : Parser (HdrLst × Option PHdrVals) := fun b o st => parseHeaders b o st.1 st.2
+
+def afbHeadersInv (b : Buf) (o : Nat) (st : HdrLst × Option PHdrVals) : Prop :=
+  hlsOK b st.1 ∧ hbOK b o st.2 ∧ hlsPend st.1 st.2 ∧ o ≤ b.size
+
+theorem afb_headers_resumableR : ResumableR afbHeadersP afbHeadersInv hdrsObs := by
+  intro b s o st o' st' hI hr
+  obtain ⟨h1, h2, h3, h4⟩ := hI
+  obtain ⟨hl', hb'⟩ := st'
+  obtain ⟨r, a, b', c, _, e⟩ := parseHeaders_resume b s o st.1 st.2 h1 h2 h3 h4 hr
+  exact ⟨r, a, b', c, by rw [Array.size_append]; omega⟩
+
+/-- **every chunk schedule, ParseHeaders, from any legitimate (list, values) pair** -/
+theorem afb_headers_schedule_from (o : Nat) (hl : HdrLst) (hb : Option PHdrVals) (l : List Buf) (hg : Growing l)
+    (h0 : ∀ b ∈ l.head?, afbHeadersInv b o (hl, hb)) :
+    RR hdrsObs (resumeRun afbHeadersP o (hl, hb) l) (oneShotRun afbHeadersP o (hl, hb) l) :=
+  resumeRun_eq_oneShotR afbHeadersP afbHeadersInv hdrsObs afb_headers_resumableR o (hl, hb) l hg h0
+
+theorem afb_headersInv_new (b : Buf) (o : Nat) (ho : o ≤ b.size) (kh kc : Nat) (nil : Bool) :
+    afbHeadersInv b o ({ hdrs := Array.replicate kh {} }, if nil then none else some (afbNewHv kc)) := by
+  have hrep : ∀ k, k < (Array.replicate kh ({} : Hdr)).size → (Array.replicate kh ({} : Hdr))[k]! = {} := by
+    intro k hk; simp at hk; simp [hk]
+  refine ⟨⟨fun k _ hk => ?_, hdrOK_new b⟩, afb_hbOK_new b o ho kc nil, ⟨?_, fun k _ hk => ?_, fun _ => ?_⟩, ho⟩
+  · show hdrOK b (Array.replicate kh ({} : Hdr))[k]!
+    rw [hrep k hk]; exact hdrOK_new b
+  · apply hlPending_of_not_isVal
+    have hcur : ({ hdrs := Array.replicate kh {} } : HdrLst).cur = {} := by
+      unfold HdrLst.cur
+      split
+      · rename_i hin; exact hrep 0 hin
+      · rfl
+    show ¬ ({ hdrs := Array.replicate kh {} } : HdrLst).cur.state.isVal
+    rw [hcur]; simp [HState.isVal]
+  · show ¬ (Array.replicate kh ({} : Hdr))[k]!.state.isVal
+    rw [hrep k hk]; simp [HState.isVal]
+  · simp [HState.isVal]
+
+/-- **every chunk schedule, ParseHeaders, from a new header list** (cleared array of any capacity) with new header
+    values (contact array of any capacity) or none -/
+theorem afb_headers_schedule (o kh kc : Nat) (nil : Bool) (l : List Buf) (hg : Growing l)
+    (h0 : ∀ b ∈ l.head?, o ≤ b.size) :
+    RR hdrsObs
+      (resumeRun afbHeadersP o ({ hdrs := Array.replicate kh {} }, if nil then none else some (afbNewHv kc)) l)
+      (oneShotRun afbHeadersP o ({ hdrs := Array.replicate kh {} }, if nil then none else some (afbNewHv kc)) l) :=
+  afb_headers_schedule_from o _ _ l hg (fun b hb => afb_headersInv_new b o (h0 b hb) kh kc nil)
+
+/-- what `RR` gives a caller: same offset, same verdict; the very same object whenever the verdict is one after which
+    parsing goes on (OK, MoreBytes, MoreValues, Empty) -/
+theorem afb_RR_use {σ τ : Type} {obs : σ → τ} {r1 r2 : Nat × Err × σ} (h : RR obs r1 r2) :
+    r1.1 = r2.1 ∧ r1.2.1 = r2.2.1 ∧ (Err.goesOn r2.2.1 → r1 = r2) :=
+  ⟨h.1, h.2.1, fun hg => h.eq hg⟩
+
+/-! ### (C) tests / non-vacuity (closed computations by `decide +kernel`; examples, not the general claims) -/
+
+/-- "*", "* CR LF", "* CR LF X": a schedule cutting a `*` P-Asserted-Identity value before and inside the line end -/
+def afbStarCuts : List Buf := [#[42], #[42, 13, 10], #[42, 13, 10, 88]]
+
+theorem afbStarCuts_growing : Growing afbStarCuts := ⟨⟨#[13, 10], by decide⟩, ⟨#[88], by decide⟩, trivial⟩
+
+/-- test: the first two calls are suspended, the last one meets the `*`: the name-addr parser says OK, ParseOnePAI
+    remaps it to the bad-value verdict, and the chain of resumed calls returns that verdict at that offset -/
+example : (parseOnePAI #[42] 0 {}).2.1 = .moreBytes ∧ (parseOnePAI #[42, 13, 10] 0 {}).2.1 = .moreBytes ∧
+    (parseNameAddrPVal HdrPAI #[42, 13, 10, 88] 0 {}).2.1 = .ok ∧ (parseOnePAI #[42, 13, 10, 88] 0 {}).2.1 = .valBad ∧
+    (resumeRun parseOnePAI 0 {} afbStarCuts).2.1 = .valBad ∧ (resumeRun parseOnePAI 0 {} afbStarCuts).1 = 3 := by
+  decide +kernel
+
+/-- test: the schedule theorem instantiated on it -/
+example : RR PFromBody.obs (resumeRun parseOnePAI 0 {} afbStarCuts) (oneShotRun parseOnePAI 0 {} afbStarCuts) :=
+  afb_onePAI_schedule 0 afbStarCuts afbStarCuts_growing (by intro b hb; simp [afbStarCuts] at hb; subst hb; decide)
+
+/-- "Via: x CR LF CSeq: 1 INVITE CR LF CR LF" cut after 3 and after 12 bytes -/
+def afbHdrsBuf : Buf := "Via: x\r\nCSeq: 1 INVITE\r\n\r\n".toUTF8.data
+def afbHdrsCuts : List Buf := [afbHdrsBuf.extract 0 3, afbHdrsBuf.extract 0 12, afbHdrsBuf]
+
+theorem afbHdrsCuts_growing : Growing afbHdrsCuts :=
+  ⟨⟨afbHdrsBuf.extract 3 12, by decide +kernel⟩, ⟨afbHdrsBuf.extract 12 afbHdrsBuf.size, by decide +kernel⟩, trivial⟩
+
+/-- test: ParseHeaders (3-slot header array, header values with a 2-slot contact array) suspended twice, then OK; the
+    schedule theorem gives the one-shot result, here with the very same object (`afb_RR_use`) -/
+example : (afbHeadersP (afbHdrsBuf.extract 0 3) 0 ({ hdrs := Array.replicate 3 {} }, some (afbNewHv 2))).2.1 = .moreBytes ∧
+    (afbHeadersP afbHdrsBuf 0 ({ hdrs := Array.replicate 3 {} }, some (afbNewHv 2))).2.1 = .ok := by
+  decide +kernel
+
+example : resumeRun afbHeadersP 0 ({ hdrs := Array.replicate 3 {} }, some (afbNewHv 2)) afbHdrsCuts =
+    oneShotRun afbHeadersP 0 ({ hdrs := Array.replicate 3 {} }, some (afbNewHv 2)) afbHdrsCuts := by
+  have h := afb_headers_schedule 0 3 2 false afbHdrsCuts afbHdrsCuts_growing
+    (by intro b hb; simp [afbHdrsCuts] at hb; subst hb; exact Nat.zero_le _)
+  refine (afb_RR_use h).2.2 ?_
+  have : (oneShotRun afbHeadersP 0 ({ hdrs := Array.replicate 3 {} }, if false = true then none else some (afbNewHv 2))
+      afbHdrsCuts).2.1 = .ok := by decide +kernel
+  rw [this]; exact Or.inl rfl
+
+/-- test: ParseFLine, a request line cut inside the method and inside the version -/
+example : resumeRun parseFLine 0 {} [#[73, 78], #[73, 78, 86, 73, 84, 69, 32, 115, 105, 112, 58, 97, 32, 83, 73],
+      #[73, 78, 86, 73, 84, 69, 32, 115, 105, 112, 58, 97, 32, 83, 73, 80, 47, 50, 46, 48, 13, 10, 88]] =
+    oneShotRun parseFLine 0 {} [#[73, 78], #[73, 78, 86, 73, 84, 69, 32, 115, 105, 112, 58, 97, 32, 83, 73],
+      #[73, 78, 86, 73, 84, 69, 32, 115, 105, 112, 58, 97, 32, 83, 73, 80, 47, 50, 46, 48, 13, 10, 88]] :=
+  afb_fline_schedule 0 _ ⟨⟨#[86, 73, 84, 69, 32, 115, 105, 112, 58, 97, 32, 83, 73], by decide⟩,
+    ⟨#[80, 47, 50, 46, 48, 13, 10, 88], by decide⟩, trivial⟩ (by decide) (by intro b hb; simp at hb; subst hb; decide)
 
 end Sipsp
